@@ -1,0 +1,17 @@
+//go:build verif
+
+package types
+
+import (
+	"bytes"
+	"math/big"
+)
+
+// Verification hook (build tag `verif` only) for property C09: the exact bytes the sealer signs.
+
+// VerifSealPreimage is the output of encodeSigHeader: the RLP list whose keccak256 is sealHash(header, chainID).
+func VerifSealPreimage(header Header, chainID *big.Int) []byte {
+	var buf bytes.Buffer
+	encodeSigHeader(&buf, header, chainID)
+	return buf.Bytes()
+}
